@@ -23,6 +23,17 @@ func genStrOp(t *sim.Tape, nkeys int, cid, i int, intKeys bool, withTTL bool) wl
 	if !intKeys && t.Draw(3, "nonint") == 0 {
 		uniq = fmt.Sprintf("v%d.%d", cid, i)
 	}
+	if t.Draw(24, "widedel") == 23 { // 0 stays the cheap choice
+		// a DEL with a few hundred keys: one or two keys of the history at its two ends, fillers in between
+		keys := []string{key()}
+		for f := 0; f < 130+t.Draw(200, "fillers"); f++ {
+			keys = append(keys, fmt.Sprintf("filler%d", f))
+		}
+		if k2 := key(); k2 != keys[0] {
+			keys = append(keys, k2)
+		}
+		return wl.StrOp{Kind: "DEL", Keys: keys}
+	}
 	switch t.Draw(12, "op") {
 	case 11:
 		// a read that the framework composes from another command (STRLEN runs GET inside)
@@ -302,7 +313,7 @@ func init() {
 	register(&Check{
 		ID: "C16", Bubble: true, Run: runC16,
 		Runs:   map[string]int{"quick": 30000, "thorough": 1000000},
-		Rule:   "a case is one concurrent history: 2..4 (thorough ..8) lock-step clients x 1..4 (thorough ..6) operations over 1..3 keys from GET/STRLEN/SET/SETNX/GETSET/INCR/DECR/INCRBY/DECRBY/APPEND/MSETNX/DEL with unique written values (one command in eight framed as an array nested in a one-element array; one in six spelled in lower case, one in six with the non-ASCII letters that upper-case to ASCII letters), against the reference store (every handler-call entry is a scheduling point) or the bundled example store (every record access is a scheduling point); a third of the histories run in a selected database; a third of the runs switch on the scheduling points inserted by source rewriting in front of every lock acquisition and sync.Map access; a quarter of the histories give half of their SETs a time to live and advance the simulated clock 1..4 times after such a SET was answered (from the advance that reaches its time to live on, the key may expire: an optional, never-returning step of the model); one history in six is cut by a Restart at a seed-chosen moment (operations in flight stay pending, 1..2 clients of the restarted server follow); invocation/response stamped with global event sequence numbers; checked with porcupine against a sequential string model; distinct = distinct event-log hashes; non-trivial = at least two operations",
+		Rule:   "a case is one concurrent history: 2..4 (thorough ..8) lock-step clients x 1..4 (thorough ..6) operations over 1..3 keys from GET/STRLEN/SET/SETNX/GETSET/INCR/DECR/INCRBY/DECRBY/APPEND/MSETNX/DEL with unique written values (one operation in 24 is a DEL with 130..330 filler keys between one or two keys of the history; one command in eight framed as an array nested in a one-element array; one in six spelled in lower case, one in six with the non-ASCII letters that upper-case to ASCII letters), against the reference store (every handler-call entry is a scheduling point) or the bundled example store (every record access is a scheduling point); a third of the histories run in a selected database; a third of the runs switch on the scheduling points inserted by source rewriting in front of every lock acquisition and sync.Map access; a quarter of the histories give half of their SETs a time to live and advance the simulated clock 1..4 times after such a SET was answered (from the advance that reaches its time to live on, the key may expire: an optional, never-returning step of the model); one history in six is cut by a Restart at a seed-chosen moment (operations in flight stay pending, 1..2 clients of the restarted server follow); invocation/response stamped with global event sequence numbers; checked with porcupine against a sequential string model; distinct = distinct event-log hashes; non-trivial = at least two operations",
 		Real:   []string{"redis.Server accept loop, connection goroutines, dispatch, string executors and derived commands", "examples/go-redisd/server string store (half of the runs)"},
 		Stub:   []string{"network: simulated", "handler (other half): reference store with atomic primitives", "oracle: porcupine v1.3.0 + sequential string model"},
 		Assume: []string{"histories are capped at 48 operations; porcupine timeouts (10 s) are counted as inconclusive and never reported"},
